@@ -7,6 +7,9 @@ import hashlib
 import json
 import os
 import sys
+import warnings
+
+warnings.simplefilter("ignore")
 
 ROOT = os.path.dirname(os.path.dirname(os.path.abspath(__file__)))
 SRC = os.path.realpath(os.environ.get("VERIF_REPO_SRC", "/repo/src"))
